@@ -199,7 +199,7 @@ def finish(prop, a, meta, seed, nshards, known, results, errors, t0) -> int:
                 "known_finding_hits": known_hits,
                 "shards": nshards,
                 "exhaustive": False,
-                "notes": notes[:20],
+                "notes": list(dict.fromkeys(notes))[:20],
             },
             "assumptions": meta["assumptions"],
             "wall_s": wall,
